@@ -52,13 +52,15 @@ theorem midpoint_between (a b : K) (h : a < b) : a < a + (b - a) / (1 + 1) ∧ a
       rw [div_lt_iff₀ h2]; nlinarith
     linarith
 
-/-- every knot to be refined is inserted exactly `p - s` times (`s` its multiplicity in `U`) -/
+/-- every knot to be refined is inserted exactly `p - s` times (`s` its multiplicity in `U`)
+    (Unfolding lemma (`rfl`): it displays the definition of the model in readable form.) -/
 theorem refineX_eq (p : ℕ) (U : List K) (density : ℕ) (tol : K) :
     refineX p U density tol
       = (iterate densify density (sortDedup ((U.drop p).take (U.length - 2 * p)))).flatMap
           (fun mk => List.replicate (p - findMultiplicity mk U tol) mk) := rfl
 
-/-- the refinement model IS the left fold of single knot insertions over `X` … -/
+/-- the refinement model IS the left fold of single knot insertions over `X` …
+    (Unfolding lemma: the model `knotRefinement` is DEFINED as this fold (the literal A5.4 loop is the separate model `refineA54`, tied to it by `refineA54_eq_insert_fold`).) -/
 theorem knotRefinement_is_insert_fold (p : ℕ) (U : List K) (P : List (List K)) (d : ℕ) (tol : K)
     (h : (refineX p U d tol).isEmpty = false) :
     knotRefinement p U P d tol = some ((refineX p U d tol).foldl (insertOne p tol) (U, P)) := by
